@@ -292,3 +292,49 @@ def run(ctx):
     shared.replay_order(ctx, '5')
     shared.eof_is_the_only_end_of_data(ctx, '6')            # empty / header-less files are recognised by UnexpectedEof on a complete-header read only
     shared.record_goes_to_the_table_it_names(ctx, '46')      # an action is validated against the table it names
+    record_id_arithmetic(ctx, '7')                            # ids read from a file are never fed to overflow-checked / wrapping `+ 1`
+
+
+def record_id_arithmetic(ctx, p):
+    """A record id is 8 bytes of a log file. The replay path computes with it (next id to hand out, id expected next): a checksum-valid
+    record with id u64::MAX made `record_id + 1` panic in builds with overflow checks and wrap to 0 in release builds, after which
+    the session numbered its records 0, 1, .. and the next replay threw the whole intact chain away (F64). Decided: in the functions
+    that compute with ids taken from files no `+` is applied to an id-derived value (saturating_add / checked_add are calls, not
+    binops), and the validation pass rejects the largest id (there is no id for the record after it)."""
+    F = ctx.F
+    fns = ['log::Log::end_read', 'db::DbInner::enact_logs']
+    n = 0
+    for fn in fns:
+        b = ctx.body(fn)
+        if not b:
+            continue
+        bad = []
+        for bi in b.normal_blocks():
+            for si, st in enumerate(b.blocks[bi]['s']):
+                if st['k'] != 'assign' or st['r']['k'] != 'bin' or st['r']['op'] not in ('Add', 'AddWithOverflow', 'AddUnchecked'):
+                    continue
+                pls = [op_place(a) for a in st['r']['a'] if op_place(a) is not None]
+                if not pls:
+                    continue
+                sl = backward_slice(b, pls)
+                idish = any(re.search(r"LogReader::<.*>::record_id$|LogReader::record_id$", c) for c in sl.calls) or '.DbInner.last_enacted' in sl.fields \
+                    or (fn.endswith('end_read') and any(b.names.get(l) == 'record_id' for l in sl.params))
+                if idish and 'u64' in str(b.locals[st['p'][0]]):
+                    bad.append(b.loc(bi, si))
+        n += 1
+        ctx.ob(p + 'a id-arithmetic-cannot-overflow %s' % fn, 'K7-panic-audit', fn,
+               'no `+` on a value derived from a record id read from a log file (the id may be u64::MAX): saturating or checked arithmetic only', not bad, 'plain addition at %s' % bad if bad else '')
+    el = ctx.body('db::DbInner::enact_logs')
+    if el:
+        # the largest id is rejected before anything of the record is applied: a comparison of record_id() with u64::MAX guards the validation walk
+        MAXV = (1 << 64) - 1
+        found = False
+        for bi in el.normal_blocks():
+            for st in el.blocks[bi]['s']:
+                if st['k'] == 'assign' and st['r']['k'] == 'bin' and st['r']['op'] in ('Eq', 'Ne', 'Ge', 'Lt'):
+                    cs = [lib.const_of(el, a) for a in st['r']['a']]
+                    pls = [op_place(a) for a in st['r']['a'] if op_place(a) is not None]
+                    if any(c is not None and c >= MAXV - 1 for c in cs) and pls and any(re.search(r'LogReader.*::record_id$', c) for c in backward_slice(el, pls).calls):
+                        found = True
+        ctx.ob(p + 'b largest-id-rejected', 'K3-guard', el.path, 'enact_logs compares the id of a replayed record with u64::MAX (the record is refused: no id is left for its successor)', found, '')
+    ctx.ob(p + '0 id-arithmetic-sites', 'anchor', '-', 'the functions that compute with replayed ids were found', n == 2, 'found %d' % n)
